@@ -64,12 +64,12 @@ class RecRng:
 
     def poisson(self, lam, size=None):
         r = self.inner.poisson(lam, size)
-        self.calls.append(["poisson", int(size), [int(x) for x in r]])
+        self.calls.append(["poisson", int(size), [int(x) for x in r], [fl_out(lam)]])
         return r
 
     def gamma(self, shape, scale=1.0, size=None):
         r = self.inner.gamma(shape, scale, size=size)
-        self.calls.append(["gamma", int(size), [fl_out(x) for x in r]])
+        self.calls.append(["gamma", int(size), [fl_out(x) for x in r], [fl_out(shape), fl_out(scale)]])
         return r
 
 
